@@ -287,10 +287,64 @@ fn model(c: &Case03) -> Model {
     }
     // unique
     if c.unique {
+        // rows that are equal - or whose equality is unspecified - share a coarse key (numbers by
+        // their double, objects by their sorted members), so only those are compared: linear
+        // instead of quadratic on tens of thousands of rows
+        fn coarse(v: &RVal, o: &mut String) {
+            match v {
+                RVal::Null => o.push('n'),
+                RVal::Bool(b) => o.push(if *b { 't' } else { 'f' }),
+                RVal::Int(_) | RVal::Float(_) => {
+                    let f = v.as_f64().unwrap_or(0.0);
+                    let f = if f == 0.0 { 0.0 } else { f };
+                    o.push_str(&format!("#{:x};", f.to_bits()));
+                }
+                RVal::Str(s) => o.push_str(&format!("s{}:{}", s.len(), s)),
+                RVal::Arr(a) => {
+                    o.push('[');
+                    for x in a {
+                        coarse(x, o);
+                        o.push(',');
+                    }
+                    o.push(']');
+                }
+                RVal::Obj(m) => {
+                    let mut parts: Vec<String> = m
+                        .iter()
+                        .map(|(k, x)| {
+                            let mut t = format!("s{}:{}=", k.len(), k);
+                            coarse(x, &mut t);
+                            t
+                        })
+                        .collect();
+                    parts.sort();
+                    o.push('{');
+                    for p in parts {
+                        o.push_str(&p);
+                        o.push(',');
+                    }
+                    o.push('}');
+                }
+            }
+        }
+        let mut buckets: std::collections::HashMap<String, Vec<usize>> = std::collections::HashMap::new();
         let mut out: Vec<Row> = Vec::new();
         for r in rows {
             let mut dup = false;
-            for k in &out {
+            let mut key = String::new();
+            if r.sels.is_empty() {
+                coarse(r.cx.chain[0].as_ref().unwrap(), &mut key);
+            } else {
+                for (_, v) in &r.sels {
+                    match v {
+                        None => key.push('~'),
+                        Some(x) => coarse(x, &mut key),
+                    }
+                    key.push('|');
+                }
+            }
+            let bucket = buckets.entry(key).or_default();
+            for k in bucket.iter().map(|i| &out[*i]) {
                 let same = if r.sels.is_empty() {
                     eq3(k.cx.chain[0].as_ref().unwrap(), r.cx.chain[0].as_ref().unwrap())
                 } else {
@@ -322,6 +376,7 @@ fn model(c: &Case03) -> Model {
                 }
             }
             if !dup {
+                bucket.push(out.len());
                 out.push(r);
             }
         }
@@ -606,7 +661,7 @@ impl Check for C03Large {
     }
     fn strategy(&self, t: Tier) -> BoxedStrategy<Case03L> {
         let max_n: u32 = t.pick(5_000, 12_000);
-        let n = prop_oneof![3 => 1_030u32..2_500, 1 => 2_500u32..max_n, 1 => 100u32..1_030];
+        let n = prop_oneof![18 => 1_030u32..2_500, 6 => 2_500u32..max_n, 6 => 100u32..1_030, 1 => 65_530u32..70_000];
         (n, any::<u64>(), 1u8..6, prop::bool::weighted(0.2), 0u8..3, 0u8..4, prop::bool::weighted(0.3), 0u8..4, any::<bool>(), (0u8..8, any::<u16>()), (0u8..10, any::<u16>()), prop_oneof![3 => Just(0u8), 1 => Just(1u8), 1 => Just(2u8)])
             .prop_map(|(n, seed, keys, split, filter, sel, unique, sorts, desc, (sk, sr), (tk, tr), group)| {
                 let frac = |r: u16, m: u32| ((r as u64 * (m as u64 + 1)) >> 16) as u64;
